@@ -195,6 +195,7 @@ struct C03Model : mcx::Model {
         if(s == "smf-half") { must(opn2_openData(d, g_smf.data(), (unsigned long)g_smf.size()), "the SMF seed"); opn2_play(d, 8000, buf); }
         else if(s == "xmi") must(opn2_openData(d, g_xmi.data(), (unsigned long)g_xmi.size()), "the XMI seed");
         else if(s == "rsxx") { must(opn2_openData(d, g_rsxx.data(), (unsigned long)g_rsxx.size()), "the RSXX seed"); if(!I->in.synth().setupLocked()) must(-1, "the RSXX seed (setup not locked)"); opn2_play(d, 2000, buf); }
+        else if(s == "carry") { opn2_switchEmulator(d, OPNMIDI_EMU_GENS); opn2_rt_noteOn(d, 0, 60, 127); opn2_rt_noteOn(d, 1, 64, 127); if(opn2_generate(d, 30, buf) != 30) must(-1, "opn2_generate(30)"); }   // a sounding chord and the fractional-sample carry that a 15-frame call leaves behind (just under one frame at 44100 Hz)
         else if(s == "drums2chips") { for(int k = 0; k < 7; k++) opn2_rt_noteOn(d, 9, (OPN2_UInt8)(35 + k), 120); I->in.generate_ms(10); }
         else if(s == "busy1chip") { opn2_rt_controllerChange(d, 1, 64, 127); for(int k = 0; k < 5; k++) opn2_rt_noteOn(d, 1, (OPN2_UInt8)(50 + k), 100); opn2_rt_noteOff(d, 1, 51); }
         return I;
@@ -216,10 +217,10 @@ int main(int argc, char **argv) {
       g_bank = pl::make_wopn({m, p}); g_trunc.assign(g_bank.begin(), g_bank.begin() + 300); g_garbage.assign(64, 'Z'); }
     g_smf = gm::seed_smf1(); g_xmi = gm::seed_xmi(); g_mus = gm::seed_mus(); g_rsxx = gm::seed_rsxx();
     C03Model m; m.thorough = a.tier == "thorough"; if(a.extra.count("subset")) m.subset = a.extra["subset"];
-    m.starts = {"fresh", "bank", "smf-half", "xmi", "rsxx", "drums2chips", "busy1chip"};
+    m.starts = {"fresh", "bank", "smf-half", "xmi", "rsxx", "drums2chips", "busy1chip", "carry"};
     if(!m.subset.empty()) m.starts = {"bank", "drums2chips", "busy1chip"};
     if(m.subset == "banks") m.starts = {"fresh", "bank"};
-    if(m.subset == "cores") m.starts = {"bank", "smf-half"};
+    if(m.subset == "cores") m.starts = {"bank", "smf-half", "carry"};
     m.build();
     // coverage of the exported API: every opn2_* function declared in the header must be reached by the op table
     { std::string hdr; std::string repo = getenv("VERIF_REPO") ? getenv("VERIF_REPO") : "/repo"; vu::read_file(repo + "/include/opnmidi.h", hdr); std::set<std::string> exported; size_t pos = 0;
